@@ -340,7 +340,7 @@ class ReadEvents(InoSpec):
             2: LoopSpec("dirnames", self.inv_sim, modifies=[("call", self.havoc_sim)]),
             3: LoopSpec("filenames", self.inv_sim, modifies=[("call", self.havoc_sim)]),
             4: LoopSpec("True", self.inv_prologue, modifies=[("call", self.havoc_shared_outside)]),
-            5: LoopSpec("Inotify._parse_event_buffer(event_buffer)", self.inv_records, modifies=hv, ghost_start=self.gs_record),
+            5: LoopSpec("Inotify._parse_event_buffer(event_buffer)", self.inv_records, modifies=hv, ghost_start=self.gs_record, ghost_end=self.ge_record),
             6: LoopSpec("self._wd_for_path.copy()", self.inv_rekey, modifies=[("call", self.havoc_rekey)]),
         }
         self.expected_covers = ["loop1.body", "loop1.end", "loop2.body", "loop2.end", "loop3.body", "loop3.end", "loop4.body", "loop5.body", "loop5.end", "loop6.body", "loop6.end", "exit"]
@@ -369,7 +369,10 @@ class ReadEvents(InoSpec):
         returns a descriptor - possibly one already handed out - which is then live and mapped both ways"""
         W = self.W
         p = W.Path.unwrap(a[0])
+        self.add_calls = getattr(self, "add_calls", 0) + 1
         if ex.choose(2, "inotify_add_watch fails (ENOENT/ENOSPC/EACCES...)") == 1:
+            if self.add_calls == 1:
+                self.add_failed_first = True
             raise Raise(VExc("OSError"), "_add_watch()")
         wd = ex.fresh_term(z3.IntSort(), "new_wd")
         ex.assume(wd >= 1)
@@ -438,7 +441,6 @@ class ReadEvents(InoSpec):
         H[(self.me.id, "_path_for_wd")] = ex.fresh(W.TPW, "_path_for_wd")
         H[(self.me.id, "_moved_from_events")] = ex.fresh(W.TMF, "_moved_from_events")
         self.g["K"] = ex.fresh_term(self.g["K"].sort(), "kernel_watches")
-        self.added = []
 
     def inv_records(self, ex, k):
         out = [("lock-held-while-translating", z3.BoolVal(LOCK in ex.held))] + self.map_inv(ex)
@@ -458,10 +460,46 @@ class ReadEvents(InoSpec):
         ex.assume(z3.Or(*[z3.Or(mask == b, mask == (b | isd)) for b in bits]))
         ex.assume(z3.Or(wd == -1, self.g["K"][wd]))
         self.maps_rec0 = self.maps(ex)
+        self.mf_rec0 = ex.heap[(self.me.id, "_moved_from_events")]
         self.added = []
+        self.add_failed_first = False
+        self.add_calls = 0
         # IN_IGNORED is the last record for its descriptor: the kernel has dropped that watch
         ign = (mask & z3.BitVecVal(T.ABI["IN_IGNORED"], 32)) != 0
         self.g["K"] = z3.If(ign, z3.Store(self.g["K"], wd, False), self.g["K"])
+
+    def ge_record(self, ex, k, el=None):
+        """C02 region contract of one record: what the watch maps look like afterwards"""
+        if "maps" not in self.want:
+            return
+        W = self.W
+        t = el.term if isinstance(el, VTuple) else el.t
+        wd, mask, name = W.RecTT.proj[0](t), W.RecTT.proj[1](t), W.RecTT.proj[3](t)
+        m0, m1 = self.maps_rec0, self.maps(ex)
+        bit = lambda b: (mask & z3.BitVecVal(T.ABI[b], 32)) != 0
+        isd = bit("IN_ISDIR")
+        wd_path = m0["pw"].val[wd]
+        src = z3.If(W.nonempty(name), W.join(wd_path, name), wd_path)
+        rec = self.recursive
+        live = wd != -1
+        if self.added:
+            ex.oblige("record[watches are added only by a recursive instance, only for a directory announced by IN_CREATE]", z3.And(rec, bit("IN_CREATE"), isd))
+        ex.oblige("record[IN_CREATE of a directory under a recursive watch: the new directory is watched (or the kernel refused it / it vanished)]",
+                  z3.Implies(z3.And(live, rec, bit("IN_CREATE"), isd), z3.Or(m1["wp"].dom[src], z3.BoolVal(getattr(self, "add_failed_first", False)))))
+        ex.oblige("record[IN_IGNORED: the descriptor's entry is pruned, and its path entry too if it still points at it]",
+                  z3.Implies(z3.And(live, bit("IN_IGNORED")), z3.And(z3.Not(m1["pw"].dom[wd]), z3.Implies(z3.And(m0["wp"].dom[wd_path], m0["wp"].val[wd_path] == wd), z3.Not(m1["wp"].dom[wd_path])))))
+        # rename of a watched directory: found through the remembered MOVED_FROM with the same cookie
+        mf = m0_mf = self.mf_rec0
+        cookie = W.RecTT.proj[2](t)
+        known = z3.And(mf.dom[cookie], m0["wp"].dom[W.NEvTT.proj[4](mf.val[cookie])])
+        old = W.NEvTT.proj[4](mf.val[cookie])
+        nv = m1["pw"].val[m0["wp"].val[old]]
+        ex.oblige("record[second half of the rename of a watched directory: its entry moves to the new path, same descriptor, both maps]",
+                  z3.Implies(z3.And(live, bit("IN_MOVED_TO"), known, old != src), z3.And(m1["wp"].dom[src], m1["wp"].val[src] == m0["wp"].val[old], z3.Or(nv == src, W.under(src, nv)), z3.Not(m1["wp"].dom[old]))))
+        ex.oblige("record[a directory that arrives without a known source (moved in) is watched by a recursive instance]",
+                  z3.Implies(z3.And(live, rec, bit("IN_MOVED_TO"), isd, z3.Not(known)), m1["wp"].dom[src]), hints={"timeout_ms": 1500, "no_fallback": True})
+        ex.oblige("record[other kinds of records leave the path->descriptor map alone]",
+                  z3.Implies(z3.And(live, z3.Not(bit("IN_MOVED_TO")), z3.Not(bit("IN_IGNORED")), z3.Not(z3.And(bit("IN_CREATE"), isd))), z3.And(m1["wp"].dom == m0["wp"].dom, m1["wp"].val == m0["wp"].val)))
 
     # ---- _recursive_simulate
     def havoc_sim(self, ex):
@@ -473,6 +511,12 @@ class ReadEvents(InoSpec):
     def inv_walk(self, ex, k):
         sc = ex.scope.lookup("events")
         out = self.map_inv(ex)
+        if not isinstance(k, bool) and z3.is_int_value(z3.simplify(k)) and z3.simplify(k).as_long() == 0 and ex.scope.lookup("root") is None:
+            self.sim0 = self.maps(ex)   # entry of _recursive_simulate
+        if getattr(self, "sim0", None) is not None:
+            p = z3.Const("sp", self.W.PS)
+            m = self.maps(ex)
+            out.append(("watch entries only accumulate while simulating", z3.ForAll([p], z3.Implies(self.sim0["wp"].dom[p], z3.And(m["wp"].dom[p])))))
         if sc is not None and isinstance(sc.vars["events"], VList):
             out.append(("events-well-formed", sc.vars["events"].n >= 0))
         return out
@@ -491,6 +535,7 @@ class ReadEvents(InoSpec):
         a, b = self.rekey_ctx(ex)
         k = z3.Const("dk", W.PS)
         ex.assume(z3.ForAll([k], z3.Not(z3.And(W.under(a, k), W.under(b, k)))))
+        ex.assume(z3.And(z3.Not(W.under(a, b)), z3.Not(W.under(b, a))))
 
     def rekey_ctx(self, ex):
         """values at the re-key loop: old and new directory path"""
@@ -520,7 +565,9 @@ class ReadEvents(InoSpec):
             ("the old keys are gone", z3.Implies(disj, z3.ForAll([k], z3.Implies(moved(k), z3.Not(wp.dom[k]))))),
             ("keys outside both trees are untouched", z3.ForAll([k], z3.Implies(z3.And(wp0.dom[k], z3.Not(W.under(a, k)), z3.Not(W.under(b, k))), z3.And(wp.dom[k], wp.val[k] == wp0.val[k])))),
             ("keys below the old path not yet visited are still there", z3.Implies(disj, z3.ForAll([k], z3.Implies(z3.And(wp0.dom[k], W.under(a, k), z3.Not(seen[k])), z3.And(wp.dom[k], wp.val[k] == wp0.val[k]))))),
+            ("nothing appears outside the new tree", z3.ForAll([k], z3.Implies(z3.And(z3.Not(wp0.dom[k]), z3.Not(W.under(b, k))), z3.Not(wp.dom[k])))),
             ("no descriptor loses its path entry", z3.ForAll([w], z3.Implies(pw0.dom[w], pw.dom[w]))),
+            ("a descriptor's path is unchanged or now lies below the new directory", z3.ForAll([w], z3.Implies(pw0.dom[w], z3.Or(pw.val[w] == pw0.val[w], W.under(b, pw.val[w]))))),
             ("re-keyed descriptors point at the rewritten path", z3.Implies(z3.And(disj, inj0), z3.ForAll([k], z3.Implies(moved(k), z3.And(pw.dom[wp0.val[k]], pw.val[wp0.val[k]] == W.subst(a, b, k)))))),
         ] + self.map_inv(ex)
 
